@@ -1,8 +1,28 @@
+//! mc-tx: serves C22 C23 C30 C31 C32 C33 C34 C35 C36 (one module per property).
 use mc_core::Ctx;
+
+mod c22;
+mod c23;
+mod c30;
+mod c31;
+mod c32;
+mod c33;
+mod c34;
+mod c35;
+mod c36;
 
 fn main() {
     let ctx = Ctx::from_args();
     match ctx.id.as_str() {
+        "C22" => c22::run(ctx),
+        "C23" => c23::run(ctx),
+        "C30" => c30::run(ctx),
+        "C31" => c31::run(ctx),
+        "C32" => c32::run(ctx),
+        "C33" => c33::run(ctx),
+        "C34" => c34::run(ctx),
+        "C35" => c35::run(ctx),
+        "C36" => c36::run(ctx),
         other => mc_core::machinery_error(&format!("mc-tx does not serve {other}")),
     }
 }
